@@ -8,7 +8,7 @@ run = one scanning geometry (ystep, y0 within +-10 steps, odd/even sinogram heig
 point-like grain whose sinogram is built with the module's own functions, reconstructed with the module's own
 shift and pad by the real run_iradon / iradon with the pool replaced by simulated worker threads under a
 seeded interleaving (line-level pre-emption inside roi_iradon.py).
-Oracle: (1) for fixed workers the result is BITWISE independent of the schedule; (2) equal across worker counts
+Oracle: (1) for fixed workers the result is independent of the schedule (1e-10 relative; bitwise equality is measured); (2) equal across worker counts
 within summation-order tolerance; (3) the ROI-masked result equals the full one on the mask and is zero elsewhere;
 (4) linear in the sinogram; (5) arg-max within 1.5 px of step_to_recon(sample_to_step(...)); (6) coordinate
 conversions are mutual inverses and the lab y of the sample point at the returned dty is zero.
@@ -23,7 +23,10 @@ from pysched import pysched
 
 class FuturesShim(object):
     def __init__(self, owner):
-        self.ThreadPoolExecutor = lambda max_workers=None: owner.make_pool(max_workers)
+        self.ThreadPoolExecutor = lambda max_workers=None, **kw: owner.make_pool(max_workers)
+        self.as_completed = pysched.sim_as_completed
+        self.wait = pysched.sim_wait
+        self.ALL_COMPLETED, self.FIRST_COMPLETED = "ALL_COMPLETED", "FIRST_COMPLETED"
 
 
 class ConcurrentShim(object):
@@ -185,10 +188,14 @@ class C19(object):
             if sched is not None:
                 meas["steps"], meas["switches"] = sched.steps, sched.switches
                 meas["pool_threads_spawned"] = len(sched.threads) - 1
-            if sim.tobytes() != ref.tobytes():
-                viol = V("schedule-dependent", "workers=%s: the reconstruction under the simulated schedule (%s) differs bitwise "
-                                               "from the one with the real pool (max diff %.3g)" %
-                         (workers, desc["strategy"], np.abs(sim - ref).max()))
+            # the statement asks for independence of the schedule to floating point accuracy (summing the partial
+            # results in completion order would be legitimate); on the current code the results are even bitwise equal
+            meas["bitwise_equal_to_real_pool"] = 1 if sim.tobytes() == ref.tobytes() else 0
+            dmax = float(np.abs(sim - ref).max())
+            if not dmax <= 1e-10 * float(np.abs(ref).max()):
+                viol = V("schedule-dependent", "workers=%s: the reconstruction under the simulated schedule (%s) differs "
+                                               "from the one with the real pool by %.3g (max |recon| %.3g)" %
+                         (workers, desc["strategy"], dmax, float(np.abs(ref).max())))
         mx = float(np.abs(ref).max()) if viol is None else 1.0
         if viol is None:
             # (2) worker counts
